@@ -188,7 +188,51 @@ def run(ctx, rep):
         if k not in want:
             rep.bad("R10.1", "R10.1|extra|%s" % k, "RDH sanity validators test an undocumented / altered condition: %s" % k, lst[0][0])
     rep.floor("R10.1", len(got), 17, "RDH sanity conditions")
-    rep.check(structural >= 6, "R10.1-structure", "R10.1|structure|err_str", "each validator returns Err iff its error string is non-empty (%d checks)" % structural, V)
+    # how the conditions are combined: the whole check is evaluated on witness headers — one on which no documented
+    # condition holds, and for every condition one on which exactly that condition holds (and one with all of them):
+    # Err exactly when at least one holds, whatever helpers build and return the error string
+    def on_bits(c):
+        """(lo, width, value) making the condition true, or None when it cannot be true for an unsigned field"""
+        if "or" in c:
+            return next((x for x in (on_bits(y) for y in c["or"]) if x), None)
+        if "any" in c:
+            hi, lo = c["any"][0]
+            return (lo, hi - lo + 1, 1)
+        if "none" in c:
+            hi, lo = c["none"][0]
+            return (lo, hi - lo + 1, 0)
+        hi, lo = c["bits"]
+        ref = REFS[c["sym"]] if "sym" in c else c["const"]
+        if c["cmp"] == "Ne":
+            return (lo, hi - lo + 1, ref ^ 1)
+        if c["cmp"] == "Gt":
+            return (lo, hi - lo + 1, ref + 1) if ref + 1 < (1 << (hi - lo + 1)) else None
+        return None
+    REFS = {"HEADER_ID": 7, "SYSTEM_ID": K["its_system_id"]}
+    good = [(0, 8, 7), (8, 8, K["header_size"]), (40, 8, K["its_system_id"]), (256, 1, 1)]
+    ents = [(e["name"], on_bits(e["cond"])) for e in orc["sanity_error_conditions"]]
+    wrong = []
+    cases = [("none", [])] + [(n_, [b_]) for n_, b_ in ents if b_] + [("all", [b_ for n_, b_ in ents if b_])]
+    self0.fields["header_id"] = some(Bits.const(REFS["HEADER_ID"], 8))
+    self0.fields["system_id"] = some(Bits.const(REFS["SYSTEM_ID"], 8))
+    for name_, on in cases:
+        ev.assume = {}
+        ev.assume_bits(root, 0, 512, 0)
+        for lo_, w_, v_ in good + on:
+            ev.assume_bits(root, lo_, w_, v_)
+        ev.strings = True
+        try:
+            r = vkey(ev.call_fn(entry, [selfv, Obj(root, 0, RC)]))
+        except Unsupported as e:
+            r = "unevaluable %s" % e
+        finally:
+            ev.assume = {}
+            ev.strings = False
+        verdict = "Err" if r.startswith("Result::Err(") else ("Ok" if r.startswith("Result::Ok(") else r[:80])
+        if verdict != ("Err" if on else "Ok"):
+            wrong.append((name_, verdict))
+    rep.check(not wrong and len(cases) >= 17, "R10.1-structure", "R10.1|structure|err_str", "the check returns Err exactly when at least one documented condition holds (%d witness headers evaluated)" % len(cases), V,
+              "RDH sanity check returns the wrong verdict on witness headers (condition made true, verdict): %s" % wrong[:6])
 
     # ---- R10.2 running step function
     R = orc["running"]
